@@ -22,6 +22,9 @@ import (
 	"github.com/xelaj/mtproto/internal/mtproto/objects"
 )
 
+// authKeyLen is the size of auth_key: g^ab mod dh_prime as a 2048-bit big-endian number
+const authKeyLen = 256
+
 // https://tlgrm.ru/docs/mtproto/auth_key
 // https://core.telegram.org/mtproto/auth_key
 func (m *MTProto) makeAuthKey() error { // nolint don't know how to make method smaller
@@ -105,22 +108,23 @@ func (m *MTProto) makeAuthKey() error { // nolint don't know how to make method 
 	// this apparently is just part of diffie hellman, so just leave it as it is, hope that it will just work
 	_, gB, gAB := math.MakeGAB(dhi.G, big.NewInt(0).SetBytes(dhi.GA), big.NewInt(0).SetBytes(dhi.DhPrime))
 
-	authKey := gAB.Bytes()
-	if authKey[0] == 0 {
-		authKey = authKey[1:]
-	}
+	// auth_key is the 2048-bit number g^ab as 256 big-endian bytes, and the nonces are fixed-width byte
+	// strings too: big.Int.Bytes() would drop their leading zero bytes
+	authKey := math.FixedBytes(gAB, authKeyLen)
+	nonceSecondBytes := math.FixedBytes(nonceSecond.Int, tl.Int256Len)
+	nonceServerBytes := math.FixedBytes(nonceServer.Int, tl.Int128Len)
 
 	m.SetAuthKey(authKey)
 
 	// I don't know what it is, apparently some very specific way to generate keys
 	t4 := make([]byte, 32+1+8) // nolint:gomnd ALL PROTOCOL IS A MAGIC
-	copy(t4[0:], nonceSecond.Bytes())
+	copy(t4[0:], nonceSecondBytes)
 	t4[32] = 1
 	copy(t4[33:], dry.Sha1Byte(m.GetAuthKey())[0:8])
 	nonceHash1 := dry.Sha1Byte(t4)[4:20]
 	salt := make([]byte, tl.LongLen)
-	copy(salt, nonceSecond.Bytes()[:8])
-	math.Xor(salt, nonceServer.Bytes()[:8])
+	copy(salt, nonceSecondBytes[:8])
+	math.Xor(salt, nonceServerBytes[:8])
 	m.serverSalt = int64(binary.LittleEndian.Uint64(salt))
 
 	// (encoding) client_DH_inner_data
@@ -149,11 +153,11 @@ func (m *MTProto) makeAuthKey() error { // nolint don't know how to make method 
 	if nonceServer.Cmp(dhg.ServerNonce.Int) != 0 {
 		return fmt.Errorf("handshake: Wrong server_nonce: %v, %v", nonceServer, dhg.ServerNonce)
 	}
-	if !bytes.Equal(nonceHash1, dhg.NewNonceHash1.Bytes()) {
+	if gotHash1 := math.FixedBytes(dhg.NewNonceHash1.Int, tl.Int128Len); !bytes.Equal(nonceHash1, gotHash1) {
 		return fmt.Errorf(
 			"handshake: Wrong new_nonce_hash1: %v, %v",
 			hex.EncodeToString(nonceHash1),
-			hex.EncodeToString(dhg.NewNonceHash1.Bytes()),
+			hex.EncodeToString(gotHash1),
 		)
 	}
 
